@@ -51,6 +51,54 @@ impl Codec {
             Codec::B64 => format!("{}", base64::encode_display(&x)),
         }
     }
+    /// The codec's serde `with` module, human readable side: what `serialize` writes for octets.
+    fn lib_serde_text(self, x: &[u8]) -> Result<String, String> {
+        struct W<'a>(Codec, &'a Vec<u8>);
+        impl serde::Serialize for W<'_> {
+            fn serialize<S: serde::Serializer>(&self, s: S) -> Result<S::Ok, S::Error> {
+                match self.0 {
+                    Codec::B16 => base16::serde::serialize(self.1, s),
+                    Codec::B32 => base32::serde::serialize(self.1, s),
+                    Codec::B64 => base64::serde::serialize(self.1, s),
+                }
+            }
+        }
+        let v = x.to_vec();
+        crate::sd::ser_text(&W(self, &v))
+    }
+    /// ... and what it writes over a compact format (the octets themselves).
+    fn lib_serde_compact(self, x: &[u8]) -> Result<crate::sd::Wrote, String> {
+        struct W<'a>(Codec, &'a Vec<u8>);
+        impl serde::Serialize for W<'_> {
+            fn serialize<S: serde::Serializer>(&self, s: S) -> Result<S::Ok, S::Error> {
+                match self.0 {
+                    Codec::B16 => base16::serde::serialize(self.1, s),
+                    Codec::B32 => base32::serde::serialize(self.1, s),
+                    Codec::B64 => base64::serde::serialize(self.1, s),
+                }
+            }
+        }
+        let v = x.to_vec();
+        crate::sd::ser_compact(&W(self, &v))
+    }
+    /// `deserialize` of the serde module from a string (human readable format).
+    fn lib_serde_dec(self, t: &str) -> Result<Vec<u8>, String> {
+        let v = serde_json::Value::String(t.to_string());
+        match self {
+            Codec::B16 => base16::serde::deserialize::<Vec<u8>, _>(v).map_err(|e| e.to_string()),
+            Codec::B32 => base32::serde::deserialize::<Vec<u8>, _>(v).map_err(|e| e.to_string()),
+            Codec::B64 => base64::serde::deserialize::<Vec<u8>, _>(v).map_err(|e| e.to_string()),
+        }
+    }
+    /// `deserialize` from raw octets (compact format).
+    fn lib_serde_dec_compact(self, x: &[u8]) -> Result<Vec<u8>, String> {
+        let d = crate::sd::BytesDe(crate::sd::Src::Owned(x.to_vec()));
+        match self {
+            Codec::B16 => base16::serde::deserialize::<Vec<u8>, _>(d).map_err(|e| e.to_string()),
+            Codec::B32 => base32::serde::deserialize::<Vec<u8>, _>(d).map_err(|e| e.to_string()),
+            Codec::B64 => base64::serde::deserialize::<Vec<u8>, _>(d).map_err(|e| e.to_string()),
+        }
+    }
     /// `decode()` of the whole string.
     fn lib_dec(self, t: &str) -> Result<Vec<u8>, String> {
         match self {
@@ -193,6 +241,10 @@ fn check_text(c: &mut Ctx, fam: &str, idx: u64, codec: Codec, text: &str, rng: &
         (a, b, convs, b2)
     });
     let Some((a, b, convs, b2)) = res else { return };
+    if let Some(sd_) = c.guard(fam, idx, || json!({"codec": codec.name(), "text": text, "path": "serde"}), || codec.lib_serde_dec(text)) {
+        judge(c, fam, idx, codec, "serde::deserialize", text, &sd_, &want);
+        c.count("serde_texts_decoded", 1);
+    }
     judge(c, fam, idx, codec, "decode", text, &a, &want);
     judge(c, fam, idx, codec, "Decoder", text, &b, &want);
     // pushing on after an error: finalize reports the failure, and otherwise agrees with stopping at once
@@ -243,6 +295,18 @@ fn check_octets(c: &mut Ctx, fam: &str, idx: u64, x: &[u8], rng: &mut Rng, log: 
             let sig = format!("encode:{}", codec.name());
             let rp = c.replay_of(fam, idx, json!({"codec": codec.name(), "octets": hex(x)}));
             c.violation(&sig, &format!("{} encode({}) = {:?} / {:?}, RFC 4648 gives {:?}", codec.name(), hex(x), got, got2, want), rp);
+        }
+        // the serde module of the codec: the RFC 4648 text over a human readable format, the octets themselves over a compact one
+        if let Some((st, sc, dc)) = c.guard(fam, idx, || json!({"codec": codec.name(), "octets": hex(x), "path": "serde"}), || (codec.lib_serde_text(x), codec.lib_serde_compact(x), codec.lib_serde_dec_compact(x))) {
+            if st.as_deref() != Ok(want.as_str()) {
+                let rp = c.replay_of(fam, idx, json!({"codec": codec.name(), "octets": hex(x)}));
+                c.violation(&format!("encode:{}:serde", codec.name()), &format!("{} serde::serialize({}) writes {:?}, RFC 4648 gives {:?}", codec.name(), hex(x), st, want), rp);
+            }
+            if sc != Ok(crate::sd::Wrote::Bytes(x.to_vec())) || dc.as_deref() != Ok(x) {
+                let rp = c.replay_of(fam, idx, json!({"codec": codec.name(), "octets": hex(x)}));
+                c.violation(&format!("serde-compact:{}", codec.name()), &format!("{} serde over a compact format does not carry the octets {} unchanged: wrote {:?}, read {:?}", codec.name(), hex(x), sc, dc.as_ref().map(|d| hex(d))), rp);
+            }
+            c.count("serde_octets_encoded", 1);
         }
         // decode what the library produced, all paths and tokenisations
         check_text(c, fam, idx, codec, &got, rng);
@@ -444,6 +508,8 @@ pub fn run(c: &mut Ctx) {
     c.floor("accepted", 1);
     c.floor("rejected", 1);
     c.floor("roundtrips", 1);
+    c.floor("serde_texts_decoded", 100);
+    c.floor("serde_octets_encoded", 100);
     for codec in CODECS {
         c.floor(&format!("dec_{}_wf", codec.name()), 1);
         c.floor(&format!("dec_{}_bad", codec.name()), 1);
